@@ -394,7 +394,7 @@ Definition ok_ls (c : ls_case) : bool :=
         && (if Nat.leb 1 (lc_rep_lim c)
             then probes_ok false (lc_impl_res c) (lc_eps c) (lc_impl_probes c) else true)
       else true
-  | [] => if Qltb 0 (lc_eta c) then Qltb 0 (lc_impl_res c) else true   (* K = 0 *)
+  | [] => true      (* K = 0: nothing probed; the result is compared by [agree_ls] only *)
   end.
 
 (** posterior at a point / weights of drawn samples *)
